@@ -24,6 +24,7 @@ ENV.update(
         "CARGO_NET_OFFLINE": "true",
         "CARGO_TERM_COLOR": "never",
         "RUST_BACKTRACE": "0",
+        "VH_REPO_BINS": os.path.join(BINS_DIR, "release"),
     }
 )
 
